@@ -292,6 +292,9 @@ class Interp:
             t = None
             if b is not None and b[0] == "constant" and isinstance(b[1], ast.Tuple):
                 t = _table_term(b[1])
+            elif b is not None and b[0] == "constant" and isinstance(b[1], ast.BinOp):
+                # a constant tuple put together from others: _A = (x, y); _B = _A + (z,)
+                t = self._const_tuple(fi.module, b[1], frame)
             elif b is not None and isinstance(b[1], ast.Dict) and _read_only_name(self.prog.modules[fi.module].tree, name):
                 # a dispatch table: a dict display with constant keys that the module only ever reads
                 ks = [_table_term(k) if k is not None else None for k in b[1].keys]
@@ -300,6 +303,25 @@ class Interp:
                     t = ("dictlit", tuple(zip(ks, vs)))
             self._mtab[key] = t
         return self._mtab[key]
+
+    def _const_tuple(self, module: str, node: ast.AST, frame: Frame, depth: int = 0) -> Optional[Term]:
+        if depth > 6:
+            return None
+        if isinstance(node, ast.Tuple):
+            return _table_term(node)
+        if isinstance(node, ast.Name):
+            if (module, node.id) in self._mtab:
+                t = self._mtab[(module, node.id)]
+            else:
+                from .core import module_binding
+                b = module_binding(self.prog, module, node.id)
+                t = self._const_tuple(module, b[1], frame, depth + 1) if b is not None and b[0] == "constant" else None
+            return t if t is not None and t[0] == "tuple" else None
+        if isinstance(node, ast.BinOp) and isinstance(node.op, ast.Add):
+            a, b = self._const_tuple(module, node.left, frame, depth + 1), self._const_tuple(module, node.right, frame, depth + 1)
+            if a is not None and b is not None:
+                return ("tuple", a[1] + b[1])
+        return None
 
     def assign_name(self, name: str, value: Term, frame: Frame) -> None:
         f = frame
